@@ -11,7 +11,7 @@ From stdpp Require Import gmap strings.
 From Coq Require Import NArith.
 From Verif Require Store.Model.
 From Verif Require Import Catalog.StoreOrphans.
-From Verif Require Import Catalog.Model Catalog.Spec Catalog.VIP Catalog.Reach Catalog.Refuted.
+From Verif Require Import Catalog.Model Catalog.Spec Catalog.VIP Catalog.Reach Catalog.Refuted Catalog.Usage Catalog.KindNames Catalog.Examples Catalog.Orphans.
 Local Open Scope N_scope.
 
 Module S := Verif.Store.Model.
@@ -31,14 +31,14 @@ Theorem C07_cascade_node : forall idx nd (s s' : S.st), SReach s ->
   S.nodes s' !! nd = None /\
   (forall sid, S.services s' !! (nd, sid) = None) /\
   (forall cid, S.checks s' !! (nd, cid) = None).
-Proof. intros idx nd s s' Hr. apply deregister_node_cascade. apply SReach_NoOrphans. exact Hr. Qed.
+Proof. intros idx nd s s' Hr. apply StoreOrphans.deregister_node_cascade. apply SReach_NoOrphans. exact Hr. Qed.
 
 (* a service deregistration that succeeds leaves neither the instance nor a check that names it *)
 Theorem C07_cascade_service : forall idx nd svc cid0 (s s' : S.st), svc ≠ "" -> SReach s ->
   S.apply idx (S.Deregister nd svc cid0) s = (s', S.CNil) ->
   S.services s' !! (nd, svc) = None /\
   (forall cid c, S.checks s' !! (nd, cid) = Some c -> S.c_service c ≠ svc).
-Proof. intros idx nd svc cid0 s s' Hsvc Hr. apply deregister_service_cascade; [exact Hsvc|]. apply SReach_NoOrphans. exact Hr. Qed.
+Proof. intros idx nd svc cid0 s s' Hsvc Hr. apply StoreOrphans.deregister_service_cascade; [exact Hsvc|]. apply SReach_NoOrphans. exact Hr. Qed.
 
 (* a failed command changes nothing (Store.Theorems.failed_command_changes_nothing, property C05), so
    the two statements above cover every deregistration.  Non-vacuity: a reachable store with a
@@ -52,6 +52,27 @@ Example C07_cascade_example :
   S.checks s' !! ("n1", "c1") = None /\ S.sessions s' !! "sess" = None /\ is_Some (S.services s' !! ("n2", "s1")) /\
   (S.apply 6 (S.Deregister "n2" "" "") s').2 = S.CNil.
 Proof. exact orphan_example. Qed.
+
+(* ---- the same three statements over the catalog extension model: all service kinds, sidecar
+   proxies, gateways, config entries, catalog transactions, and coordinates (no sessions) ---- *)
+Theorem C07_no_orphans_catalog : forall s, CReach s ->
+  (forall nd sid v, services s !! (nd, sid) = Some v -> is_Some (nodes s !! nd)) /\
+  (forall nd cid c, checks s !! (nd, cid) = Some c ->
+     is_Some (nodes s !! nd) /\ (c_service c ≠ "" -> is_Some (services s !! (nd, c_service c)))) /\
+  (forall nd, nd ∈ coords s -> is_Some (nodes s !! nd)).
+Proof. exact CReach_NoOrph. Qed.
+
+(* a node deregistration (it cannot fail in this model) leaves no service, check, coordinate or node row *)
+Theorem C07_cascade_node_catalog : forall idx nd s, CReach s ->
+  let s' := (apply idx (Deregister nd "" "") s).1 in
+  nodes s' !! nd = None /\ nd ∉ coords s' /\
+  (forall sid, services s' !! (nd, sid) = None) /\ (forall cid, checks s' !! (nd, cid) = None).
+Proof. intros idx nd s Hr. apply Orphans.deregister_node_cascade. apply CReach_NoOrph. exact Hr. Qed.
+
+Theorem C07_cascade_service_catalog : forall idx nd sid cid0 s, sid ≠ "" -> CReach s ->
+  let s' := (apply idx (Deregister nd sid cid0) s).1 in
+  services s' !! (nd, sid) = None /\ (forall cid c, checks s' !! (nd, cid) = Some c -> c_service c ≠ sid).
+Proof. intros idx nd sid cid0 s Hs Hr. apply Orphans.deregister_service_cascade; [exact Hs|]. apply CReach_NoOrph. exact Hr. Qed.
 
 (* ================= virtual IPs (catalog model) ================= *)
 (* no two services are ever assigned the same virtual IP *)
@@ -80,10 +101,125 @@ Theorem C07_vip_advertised_partial : forall s, CReach s ->
     exists m, vips s !! sv_name v = Some (ip, m).
 Proof. exact vip_advertised_native. Qed.
 
+(* ================= derived views (catalog model) ================= *)
+(* FULL STATEMENT (false): in every reachable state every derived view equals its recomputation from
+   the base rows and config entries:
+     forall s, CReach s ->
+       ksn s = recompute_ksn s /\ (forall id, stored_usage s id = recompute_usage s id) /\
+       stored_gws s = recompute_gws s /\ topo s = recompute_topo s.
+   Each conjunct is refuted below by a reachable state (the same histories fail on the real store:
+   harness/catalog corpus); what does hold is stated after each refutation. *)
+
+(* ---- usage counts ---- *)
+Theorem C07_derived_usage_refuted : exists s, CReach s /\
+  stored_usage s billable_usage = 0 /\ recompute_usage s billable_usage = 1.
+Proof. exists (run usage_log st0).1. split; [apply CReach_run|exact usage_witness]. Qed.
+
+(* the node, instance, service-name, connect-kind, connect-native and billable counters equal the counts
+   recomputed from the rows in every state reached without ever having an instance named "consul"
+   (CReachNC: reachable, and after every command no instance is named "consul") *)
+Theorem C07_derived_usage_partial : forall s, CReachNC s ->
+  forall id, id ∈ svc_usage_ids -> stored_usage s id = recompute_usage s id.
+Proof. intros s H. apply (usage_recomputed s H). Qed.
+
+(* one commit step, for arbitrary states: if the counters were right before and no instance is named
+   "consul" before or after, they are right after *)
+Theorem C07_derived_usage_step : forall before after,
+  (forall id, id ∈ svc_usage_ids -> stored_usage before id = recompute_usage before id) ->
+  no_consul (services before) -> no_consul (services after) ->
+  forall id, id ∈ svc_usage_ids -> stored_usage (commit_usage before after) id = recompute_usage (commit_usage before after) id.
+Proof. exact commit_usage_ok. Qed.
+
+(* non-vacuity: a state reached without "consul" in which every counter is non-zero or changes *)
+Example C07_derived_usage_example :
+  let s := (run usage_example_log st0).1 in
+  CReachNC s /\ stored_usage s "nodes" = 2 /\ stored_usage s "services" = 3 /\ stored_usage s "service-names" = 3 /\
+  stored_usage s (connect_usage KTermGW) = 1 /\ stored_usage s native_usage = 1 /\ stored_usage s billable_usage = 1.
+Proof. exact usage_example. Qed.
+
+(* ---- kind-service-names ---- *)
+(* a name used by instances of two kinds, and an instance re-registered under another name *)
+Theorem C07_derived_kindnames_refuted :
+  (exists s, CReach s /\ ("connect-proxy", "web") ∈ ksn s /\ ksn s ≠ recompute_ksn s) /\
+  (exists s, CReach s /\ ksn s ≠ recompute_ksn s).
+Proof.
+  split.
+  - exists (run ksn_log st0).1. split; [apply CReach_run|exact kindnames_witness].
+  - exists (run ksn_log2 st0).1. split; [apply CReach_run|exact kindnames_witness2].
+Qed.
+
+(* kind-service-names equals its recomputation in every state reached under a naming discipline D:
+   every instance key (node, service id) is always registered with the same name, kind, native flag
+   and destination (d_def), every name is used with one kind (d_kind), and the service-defaults entry
+   of a name always or never carries a destination (d_dest) — exactly the histories the three
+   refutations (name shared across kinds, instance redefined, destination dropped by an update) are
+   not in.  [cmd_ok D c] is the syntactic condition on a command; CReachD D closes st0 under the
+   commands that satisfy it. *)
+Theorem C07_derived_kindnames_partial : forall (D : discipline) s, CReachD D s -> ksn s = recompute_ksn s.
+Proof. exact kindnames_recomputed. Qed.
+
+(* non-vacuity: a discipline and a history under it (a service, its sidecar proxy, a connect-native
+   service registered by a transaction, a destination, a wildcard gateway; then deregistrations) *)
+Example C07_derived_kindnames_example :
+  CReachD example_discipline (run (take 8%nat kn_example_log) st0).1 /\
+  ksn (run (take 8%nat kn_example_log) st0).1 =
+    {[ ("", "web"); ("connect-proxy", "web-proxy"); ("connect-enabled", "web"); ("", "db"); ("connect-enabled", "db");
+       ("destination", "ext") ]} /\
+  CReachD example_discipline (run kn_example_log st0).1 /\
+  ksn (run kn_example_log st0).1 = {[ ("connect-proxy", "web-proxy"); ("connect-enabled", "web") ]}.
+Proof. exact kn_example. Qed.
+
+(* ---- mesh-topology ---- *)
+(* a pair declared by two proxy instances keeps only the latest as its reference, and disappears with it *)
+Theorem C07_derived_topology_refuted :
+  (exists s, CReach s /\ topo s !! ("db", "web") = Some {[ ("n2", "s1") ]} /\ topo s ≠ recompute_topo s) /\
+  (exists s, CReach s /\ topo s !! ("db", "web") = None /\
+             recompute_topo s !! ("db", "web") = Some {[ ("n1", "s1") ]}).
+Proof.
+  destruct topology_witness as (H1 & H2 & H3 & H4). split.
+  - exists (run (take 2 topo_log) st0).1. split; [apply CReach_run|split; assumption].
+  - exists (run topo_log st0).1. split; [apply CReach_run|split; assumption].
+Qed.
+
+(* ---- gateway-services ---- *)
+(* a service listed next to the wildcard is overwritten by the wildcard on registration and removed on
+   deregistration *)
+Theorem C07_derived_gateway_refuted :
+  (exists s, CReach s /\ stored_gws s !! ("tgw", "web", 0) = Some (KTermGW, true) /\
+             recompute_gws s !! ("tgw", "web", 0) = Some (KTermGW, false)) /\
+  (exists s, CReach s /\ stored_gws s !! ("tgw", "web", 0) = None /\
+             recompute_gws s !! ("tgw", "web", 0) = Some (KTermGW, false)).
+Proof.
+  destruct gateway_witness as (H1 & H2 & H3 & H4). split.
+  - exists (run (take 2 gws_log) st0).1. split; [apply CReach_run|split; assumption].
+  - exists (run gws_log st0).1. split; [apply CReach_run|split; assumption].
+Qed.
+
+(* non-vacuity for the virtual IP theorems: two services with addresses 1 and 2, a connect-native
+   instance advertising its service's address *)
+Example C07_vip_example :
+  let s := (run (take 4%nat usage_example_log) st0).1 in
+  CReach s /\ vips s !! "web" = Some (1, []) /\ vips s !! "db" = Some (2, []) /\
+  exists v, services s !! ("n2", "s1") = Some v /\ sv_vip v = Some 2 /\ sv_native v = true /\ sv_kind v ≠ KProxy /\ sv_name v = "db".
+Proof. exact vip_example. Qed.
+
 Print Assumptions C07_no_orphans.
+Print Assumptions C07_vip_example.
 Print Assumptions C07_cascade_node.
 Print Assumptions C07_cascade_service.
 Print Assumptions C07_cascade_example.
+Print Assumptions C07_no_orphans_catalog.
+Print Assumptions C07_cascade_node_catalog.
+Print Assumptions C07_cascade_service_catalog.
 Print Assumptions C07_vip_unique.
 Print Assumptions C07_vip_advertised_refuted.
 Print Assumptions C07_vip_advertised_partial.
+Print Assumptions C07_derived_usage_refuted.
+Print Assumptions C07_derived_usage_partial.
+Print Assumptions C07_derived_usage_step.
+Print Assumptions C07_derived_usage_example.
+Print Assumptions C07_derived_kindnames_refuted.
+Print Assumptions C07_derived_kindnames_partial.
+Print Assumptions C07_derived_kindnames_example.
+Print Assumptions C07_derived_topology_refuted.
+Print Assumptions C07_derived_gateway_refuted.
